@@ -407,6 +407,11 @@ def save_scsv(file, schema, data, **kwargs):
 
     """
     path = resolve_path(file)
+    if "fields" in schema and len(data) != len(schema["fields"]):
+        raise _err.SCSVError(
+            "number of fields declared in schema does not match number of data columns."
+            + f" Declared {len(schema['fields'])} fields; got {len(data)} data columns"
+        )
     n_rows = len(data[0])
     for col in data[1:]:
         if len(col) != n_rows:
@@ -745,9 +750,10 @@ def _validate_scsv_schema(schema):
         )
         return False
     for field in schema["fields"]:
-        if not field["name"].isidentifier():
+        if not str(field.get("name", "")).isidentifier():
             _log.error(
-                "SCSV field name '%s' is not a valid Python identifier", field["name"]
+                "SCSV field name '%s' is not a valid Python identifier",
+                field.get("name", ""),
             )
             return False
         if field.get("type", _SCSV_DEFAULT_TYPE) not in SCSV_TYPEMAP.keys():
